@@ -117,7 +117,7 @@ func runC15(c *core.Ctx) {
 					suf = path[len(cl.Base):]
 				}
 			}
-			flag := closedFlagSetBefore(cl)
+			flag := closedFlagSetBefore(p, cl)
 			switch {
 			case suf == "":
 				ch.lockless = true
@@ -169,7 +169,38 @@ func keysOf(m map[string]*c15chan) []string {
 }
 
 // closedFlagSetBefore finds a flag store (bool field := true, or AtomBool.Set(true)) on the closer's object that dominates the close.
-func closedFlagSetBefore(cl core.ChanOp) string {
+// When the close sits in a closure handed to a lock wrapper, the store may precede the wrapper call in the enclosing function.
+func closedFlagSetBefore(p *core.Prog, cl core.ChanOp) string {
+	if f := flagSetBeforeIn(cl.Fn, cl.Instr, cl.Base); f != "" {
+		return f
+	}
+	if cl.Fn.Parent() != nil {
+		sites, complete := core.CallSites(p, cl.Fn)
+		if complete && len(sites) > 0 {
+			res := ""
+			for _, s := range sites {
+				at := s.Instr
+				if s.Outer != nil {
+					at = s.Outer
+				}
+				f := flagSetBeforeIn(at.Parent(), at, cl.Base)
+				if f == "" || res != "" && res != f {
+					return ""
+				}
+				res = f
+			}
+			return res
+		}
+	}
+	return ""
+}
+
+func flagSetBeforeIn(fn *ssa.Function, at ssa.Instruction, base string) string {
+	cl := struct {
+		Fn    *ssa.Function
+		Instr ssa.Instruction
+		Base  string
+	}{fn, at, base}
 	found := ""
 	core.Instrs(cl.Fn, func(ins ssa.Instruction) {
 		if !core.InstrDominates(ins, cl.Instr) || ins == cl.Instr {
